@@ -28,8 +28,8 @@ def Fail.name : Fail → String
   | .invalid => "invalid" | .underflow => "underflow" | .limit => "limit" | .oog => "oog" | .overflow => "overflow" | .badjump => "badjump"
 
 inductive Outcome where
-  | ok (ret : Bytes) (gasLeft : Nat)
-  | revert (ret : Bytes) (gasLeft : Nat)
+  | ok (ret : Bytes) (gasLeft : Nat) (stack : List Int)      -- stack as the halting instruction found it
+  | revert (ret : Bytes) (gasLeft : Nat) (stack : List Int)
   | fail (f : Fail)
   | skip (op : Nat)      -- valid opcode outside the modelled subset
   | fuel                 -- cannot happen: every non-halting step costs gas
@@ -283,7 +283,7 @@ def run (env : Env) (lookup : Nat → Option OpRow) (pre : Nat → Machine → E
             match exec env alu jumpOk row opc m1 with
             | .skip => .skip opc
             | .fail f => .fail f
-            | .halt ret => if row.reverts then .revert ret m1.gas else .ok ret m1.gas
+            | .halt ret => if row.reverts then .revert ret m1.gas m1.stack else .ok ret m1.gas m1.stack
             | .next m2 => run env lookup pre alu jumpOk fuel m2
 
 -- ---------------------------------------------------------------------------------------------------------------------
